@@ -45,7 +45,9 @@ def _one(case):
         overlay[f] = txt.replace(o, n, 1)
     tree = SourceTree(overlay=overlay)
     ctx, err = run_property(prop, 'quick', tree)
-    failing = [o for o in ctx.obs if not o.ok]
+    from .core import load_known, match_known
+    known = load_known(prop)
+    failing = [o for o in ctx.obs if not o.ok and match_known(o, known) is None]
     if kind == 'mutant':
         hit = [o for o in failing if rule is None or o.rule.startswith(rule)]
         if hit:
